@@ -823,3 +823,892 @@ Proof.
   - exists f. repeat split; reflexivity.
   - split; reflexivity.
 Qed.
+
+(* ------------------------------------------------------------------------------------------ *)
+(** * The simple emitters *)
+
+Lemma rc_emit_recs w rs :
+  w_recs (emit w rs) = (w_recs w ++ rs)%list /\ w_max (emit w rs) = w_max w /\
+  w_autosplit (emit w rs) = w_autosplit w /\ w_diti (emit w rs) = w_diti w /\ w_dev (emit w rs) = w_dev w.
+Proof. repeat split; reflexivity. Qed.
+
+Lemma rc_wash w s :
+  (w_diti w = true -> wash w s = (emit w [RW None], None)) /\
+  (w_diti w = false -> forall n, (1 <= n <= 4)%nat -> s = SInt (Z.of_nat n) ->
+     wash w s = (emit w [RW (Some n)], None)) /\
+  (w_diti w = false -> (forall z, s = SInt z -> (z < 1 \/ 4 < z)%Z) -> wash w s = (w, Some EReject)).
+Proof.
+  unfold wash. split; [|split].
+  - intro H. rewrite H. reflexivity.
+  - intros H n Hn Hs. rewrite H. subst s.
+    assert (E : ((1 <=? Z.of_nat n) && (Z.of_nat n <=? 4))%Z = true)
+      by (apply andb_true_iff; split; apply Z.leb_le; lia).
+    rewrite E. rewrite Nat2Z.id. reflexivity.
+  - intros H Hs. rewrite H. destruct s as [z| | | |]; try reflexivity.
+    assert (E : ((1 <=? z) && (z <=? 4))%Z = false).
+    { apply andb_false_iff. destruct (Hs z eq_refl) as [Hz|Hz];
+        [left; apply Z.leb_gt; exact Hz|right; apply Z.leb_gt; exact Hz]. }
+    rewrite E. reflexivity.
+Qed.
+
+Lemma rc_decontaminate w :
+  (w_diti w = true -> decontaminate w = (w, Some EInvalidOp)) /\
+  (w_diti w = false -> decontaminate w = (emit w [RWD], None)).
+Proof. unfold decontaminate. split; intro H; rewrite H; reflexivity. Qed.
+
+Lemma rc_flush_commit w : flush w = (emit w [RF], None) /\ commit w = (emit w [RB], None).
+Proof. split; reflexivity. Qed.
+
+Lemma rc_last_opt_snoc {A} (l : list A) r : last_opt (l ++ [r]) = Some r.
+Proof.
+  induction l as [|x l IH]; [reflexivity|].
+  cbn [app last_opt]. destruct (l ++ [r])%list as [|y t] eqn:E.
+  - destruct l; discriminate E.
+  - exact IH.
+Qed.
+
+Lemma rc_set_diti w i :
+  (w_recs w = [] -> set_diti w i = (emit w [RS i], None)) /\
+  (forall l r, w_recs w = (l ++ [r])%list -> is_break_like r = true ->
+     set_diti w i = (emit w [RS i], None)) /\
+  (forall l r, w_recs w = (l ++ [r])%list -> is_break_like r = false ->
+     set_diti w i = (w, Some EInvalidOp)).
+Proof.
+  unfold set_diti. split; [|split].
+  - intro H. rewrite H. reflexivity.
+  - intros l r H Hb. rewrite H, rc_last_opt_snoc, Hb. reflexivity.
+  - intros l r H Hb. rewrite H, rc_last_opt_snoc, Hb. reflexivity.
+Qed.
+
+(** which records count as a break *)
+Lemma rc_is_break_like r :
+  is_break_like r = true <-> r = RB \/ exists s, r = RCmd (String "B" s).
+Proof.
+  split.
+  - destruct r as [f|f|f|sc| | | |t|i|s]; try discriminate; intro H.
+    + left. reflexivity.
+    + right. destruct s as [|a s]; [discriminate|]. cbn [is_break_like] in H.
+      apply Ascii.eqb_eq in H. subst a. exists s. reflexivity.
+  - intros [H|[s H]]; subst r; reflexivity.
+Qed.
+
+(** ** comment *)
+
+Lemma rc_split_aux_nosep c s : forall cur, contains_char c cur = false ->
+  Forall (fun p => contains_char c p = false) (split_on_aux c s cur).
+Proof.
+  induction s as [|a r IH]; intros cur Hc; cbn [split_on_aux].
+  - constructor; [exact Hc|constructor].
+  - destruct (Ascii.eqb a c) eqn:E.
+    + constructor; [exact Hc|]. apply IH. reflexivity.
+    + apply IH. rewrite rc_contains_app. rewrite Hc. cbn [contains_char]. rewrite E. reflexivity.
+Qed.
+
+Lemma rc_split_aux_sub d c s : forall cur, contains_char d s = false -> contains_char d cur = false ->
+  Forall (fun p => contains_char d p = false) (split_on_aux c s cur).
+Proof.
+  induction s as [|a r IH]; intros cur Hs Hc; cbn [split_on_aux].
+  - constructor; [exact Hc|constructor].
+  - cbn [contains_char] in Hs. apply orb_false_elim in Hs. destruct Hs as [Ha Hr].
+    destruct (Ascii.eqb a c) eqn:E.
+    + constructor; [exact Hc|]. apply IH; [exact Hr|reflexivity].
+    + apply IH; [exact Hr|]. rewrite rc_contains_app. rewrite Hc. cbn [contains_char]. rewrite Ha. reflexivity.
+Qed.
+
+Lemma rc_contains_lstrip d s : contains_char d s = false -> contains_char d (lstrip_sp s) = false.
+Proof.
+  induction s as [|a r IH]; intro H; [reflexivity|]. cbn [lstrip_sp].
+  destruct (Ascii.eqb a " "); [|exact H].
+  cbn [contains_char] in H. apply orb_false_elim in H. apply IH. apply H.
+Qed.
+
+Lemma rc_contains_rev_aux d s : forall acc,
+  contains_char d (rev_string_aux s acc) = contains_char d s || contains_char d acc.
+Proof.
+  induction s as [|a r IH]; intro acc; cbn [rev_string_aux contains_char]; [reflexivity|].
+  rewrite IH. cbn [contains_char].
+  destruct (Ascii.eqb a d), (contains_char d r), (contains_char d acc); reflexivity.
+Qed.
+
+Lemma rc_contains_rev d s : contains_char d (rev_string s) = contains_char d s.
+Proof. unfold rev_string. rewrite rc_contains_rev_aux. cbn [contains_char]. apply orb_false_r. Qed.
+
+Lemma rc_contains_strip d s : contains_char d s = false -> contains_char d (strip_sp s) = false.
+Proof.
+  intro H. unfold strip_sp. rewrite rc_contains_rev. apply rc_contains_lstrip.
+  rewrite rc_contains_rev. apply rc_contains_lstrip. exact H.
+Qed.
+
+Definition rc_lf : ascii := ascii_of_nat 10.
+
+Lemma rc_comment_lines_spec s t : In t (comment_lines s) ->
+  t <> "" /\ (exists line, In line (split_on rc_lf s) /\ t = strip_sp line) /\
+  contains_char rc_lf t = false /\
+  (forall d, contains_char d s = false -> contains_char d t = false).
+Proof.
+  unfold comment_lines. intro H. apply filter_In in H. destruct H as [H Hne].
+  apply in_map_iff in H. destruct H as [line [Ht Hin]]. subst t.
+  split.
+  { intro C. rewrite C in Hne. discriminate Hne. }
+  split; [exists line; split; [exact Hin|reflexivity]|].
+  split.
+  - apply rc_contains_strip.
+    pose proof (rc_split_aux_nosep (ascii_of_nat 10) s "" eq_refl) as HF.
+    rewrite Forall_forall in HF. apply HF. exact Hin.
+  - intros d Hs. apply rc_contains_strip.
+    pose proof (rc_split_aux_sub d (ascii_of_nat 10) s "" Hs eq_refl) as HF.
+    rewrite Forall_forall in HF. apply HF. exact Hin.
+Qed.
+
+Lemma rc_comment w :
+  comment w None = (w, None) /\ comment w (Some "") = (w, None) /\
+  (forall s, contains_char ";"%char s = true -> comment w (Some s) = (w, Some EReject)) /\
+  (forall s, s <> "" -> contains_char ";"%char s = false ->
+     comment w (Some s) =
+       (emit w (map RC (filter (fun l => negb (String.eqb l ""))
+                               (map strip_sp (split_on (ascii_of_nat 10) s)))), None) /\
+     forall t, In t (filter (fun l => negb (String.eqb l "")) (map strip_sp (split_on (ascii_of_nat 10) s))) ->
+       t <> "" /\ contains_char ";"%char t = false /\ contains_char (ascii_of_nat 10) t = false /\
+       (forall d, contains_char d s = false -> contains_char d t = false) /\
+       parse_record (render (RC t)) = Some (PC t)).
+Proof.
+  split; [reflexivity|]. split; [reflexivity|]. split.
+  - intros s Hs. unfold comment. destruct (String.eqb s "") eqn:E.
+    + apply String.eqb_eq in E. subst s. discriminate Hs.
+    + unfold semi. rewrite Hs. reflexivity.
+  - intros s Hne Hs. split.
+    + unfold comment. destruct (String.eqb s "") eqn:E.
+      * apply String.eqb_eq in E. congruence.
+      * unfold semi. rewrite Hs. reflexivity.
+    + intros t Ht. destruct (rc_comment_lines_spec s t Ht) as [H1 [_ [H3 H4]]].
+      split; [exact H1|]. split; [exact (H4 _ Hs)|]. split; [exact H3|]. split; [exact H4|].
+      apply rc_roundtrip_C. exact (H4 _ Hs).
+Qed.
+
+(* ------------------------------------------------------------------------------------------ *)
+(** * Reagent-distribution records *)
+
+Lemma rc_all_digits_rev_aux s : forall acc,
+  all_digits (rev_string_aux s acc) = all_digits s && all_digits acc.
+Proof.
+  induction s as [|a r IH]; intro acc; cbn [rev_string_aux all_digits]; [reflexivity|].
+  rewrite IH. cbn [all_digits].
+  destruct (is_digit a), (all_digits r), (all_digits acc); reflexivity.
+Qed.
+
+Lemma rc_all_digits_rev s : all_digits (rev_string s) = all_digits s.
+Proof. unfold rev_string. rewrite rc_all_digits_rev_aux. cbn [all_digits]. apply andb_true_r. Qed.
+
+Lemma rc_all_digits_rstrip0_rev s : all_digits s = true -> all_digits (rstrip0_rev s) = true.
+Proof.
+  induction s as [|a r IH]; intro H; [reflexivity|]. cbn [rstrip0_rev].
+  destruct (Ascii.eqb a "0"); [|exact H]. destruct r as [|b r']; [exact H|].
+  apply IH. cbn [all_digits] in H. apply andb_true_iff in H. apply H.
+Qed.
+
+Lemma rc_rstrip0_rev_nonempty s : s <> "" -> rstrip0_rev s <> "".
+Proof.
+  induction s as [|a r IH]; intro H; [congruence|]. cbn [rstrip0_rev].
+  destruct (Ascii.eqb a "0"); [|discriminate]. destruct r as [|b r']; [discriminate|].
+  apply IH. discriminate.
+Qed.
+
+Lemma rc_rev_aux_nonempty s : forall acc, (s <> "" \/ acc <> "") -> rev_string_aux s acc <> "".
+Proof.
+  induction s as [|a r IH]; intros acc H; cbn [rev_string_aux].
+  - destruct H as [H|H]; [congruence|exact H].
+  - apply IH. right. discriminate.
+Qed.
+
+Lemma rc_all_digits_rstrip0 s : all_digits s = true -> all_digits (rstrip0 s) = true.
+Proof.
+  intro H. unfold rstrip0. rewrite rc_all_digits_rev. apply rc_all_digits_rstrip0_rev.
+  rewrite rc_all_digits_rev. exact H.
+Qed.
+
+Lemma rc_rstrip0_nonempty s : s <> "" -> rstrip0 s <> "".
+Proof.
+  intro H. unfold rstrip0, rev_string. apply rc_rev_aux_nonempty. left.
+  apply rc_rstrip0_rev_nonempty. apply rc_rev_aux_nonempty. left. exact H.
+Qed.
+
+Lemma rc_pad_zeros_nonempty k s : s <> "" -> pad_zeros k s <> "".
+Proof.
+  intro H. unfold pad_zeros. generalize (k - String.length s)%nat as n.
+  destruct n as [|n]; [exact H|discriminate].
+Qed.
+
+(** the fraction digits printed by [repr(float)] *)
+Definition rc_repr_frac (n : N) (k : nat) : string :=
+  match k with O => "0" | _ => rstrip0 (frac_digits n k) end.
+
+Lemma rc_repr_dec_eq n k : repr_dec n k = decN (n / 10 ^ N.of_nat k)%N ++ "." ++ rc_repr_frac n k.
+Proof. reflexivity. Qed.
+
+Lemma rc_repr_frac_digits n k : all_digits (rc_repr_frac n k) = true /\ rc_repr_frac n k <> "".
+Proof.
+  unfold rc_repr_frac. destruct k as [|k]; [split; [reflexivity|discriminate]|]. split.
+  - apply rc_all_digits_rstrip0. apply rc_all_digits_frac.
+  - apply rc_rstrip0_nonempty. unfold frac_digits. apply rc_pad_zeros_nonempty. apply decN_nonempty.
+Qed.
+
+Lemma rc_repr_dec_no c n k : is_digit c = false -> c <> "."%char -> contains_char c (repr_dec n k) = false.
+Proof.
+  intros Hc Hp. rewrite rc_repr_dec_eq. rewrite !rc_contains_app.
+  rewrite rc_decN_no by exact Hc.
+  rewrite (rc_digits_no c _ Hc (proj1 (rc_repr_frac_digits n k))).
+  cbn [contains_char]. destruct (Ascii.eqb "." c) eqn:E; [|reflexivity].
+  apply Ascii.eqb_eq in E. congruence.
+Qed.
+
+Lemma rc_decZ_no_any c z : is_digit c = false -> c <> "-"%char -> contains_char c (decZ z) = false.
+Proof.
+  intros Hc Hm. destruct z as [|p|p]; [apply rc_decN_no; exact Hc|apply rc_decN_no; exact Hc|].
+  cbn [decZ contains_char]. rewrite rc_decN_no by exact Hc.
+  destruct (Ascii.eqb "-" c) eqn:E; [|reflexivity]. apply Ascii.eqb_eq in E. congruence.
+Qed.
+
+(** a printed number never contains a separator or a line break *)
+Lemma rc_pynum_no c p : is_digit c = false -> c <> "."%char -> c <> "-"%char ->
+  contains_char c (render_pynum p) = false.
+Proof.
+  intros Hc Hp Hm. destruct p as [z|q]; cbn [render_pynum].
+  - apply rc_decZ_no_any; assumption.
+  - unfold pyrepr_float. cbv zeta. apply rc_repr_dec_no; assumption.
+Qed.
+
+(** a printed float is a well-formed decimal: digits, a point, at least one digit *)
+Lemma rc_parse_decimal_repr n k :
+  parse_decimal (repr_dec n k) = Some ((n / 10 ^ N.of_nat k)%N, rc_repr_frac n k).
+Proof.
+  rewrite rc_repr_dec_eq. destruct (rc_repr_frac_digits n k) as [Hd Hne].
+  unfold parse_decimal.
+  change (decN (n / 10 ^ N.of_nat k) ++ "." ++ rc_repr_frac n k)
+    with (join "." [decN (n / 10 ^ N.of_nat k)%N; rc_repr_frac n k]).
+  rewrite rc_split_join.
+  - rewrite parse_decN_decN. destruct (rc_repr_frac n k) as [|a s]; [congruence|]. rewrite Hd. reflexivity.
+  - apply rc_decN_no. reflexivity.
+  - constructor; [|constructor]. apply rc_digits_no; [reflexivity|exact Hd].
+Qed.
+
+Lemma rc_parse_decimal_float q : exists i fp,
+  parse_decimal (render_pynum (PyF q)) = Some (i, fp) /\ all_digits fp = true /\ fp <> "".
+Proof.
+  cbn [render_pynum]. unfold pyrepr_float. cbv zeta. eexists. eexists.
+  split; [apply rc_parse_decimal_repr|]. apply rc_repr_frac_digits.
+Qed.
+
+Lemma rc_parse_decimal_int z : (0 <= z)%Z -> parse_decimal (render_pynum (PyI z)) = Some (Z.to_N z, "").
+Proof.
+  intro H. cbn [render_pynum]. rewrite rc_decZ_nonneg by exact H. unfold parse_decimal.
+  change (decN (Z.to_N z)) with (join "." [decN (Z.to_N z)]) at 1.
+  rewrite rc_split_join; [|apply rc_decN_no; reflexivity|constructor].
+  rewrite parse_decN_decN. reflexivity.
+Qed.
+
+Lemma rc_parse_decs l : Forall (fun x => (0 <= x)%Z) l -> parse_decs (map decZ l) = Some (map Z.to_N l).
+Proof.
+  induction l as [|x l IH]; intro H; [reflexivity|].
+  inversion H as [|x0 l0 Hx Hl]. subst x0 l0. cbn [map parse_decs].
+  rewrite rc_parse_decZ by exact Hx. rewrite IH by exact Hl. reflexivity.
+Qed.
+
+Lemma rc_decs_nosep c l : is_digit c = false -> Forall (fun x => (0 <= x)%Z) l ->
+  Forall (fun y => contains_char c y = false) (map decZ l).
+Proof.
+  intros Hc H. induction H as [|x l Hx Hl IH]; [constructor|].
+  cbn [map]. constructor; [apply rc_decZ_no; assumption|exact IH].
+Qed.
+
+Lemma rc_of_to_N_list l : Forall (fun x => (0 <= x)%Z) l -> map Z.of_N (map Z.to_N l) = l.
+Proof.
+  intro H. induction H as [|x l Hx Hl IH]; [reflexivity|].
+  cbn [map]. rewrite IH. rewrite Z2N.id by exact Hx. reflexivity.
+Qed.
+
+Lemma rc_parse_dir (d : bool) : parse_dir (if d then "1" else "0") = Some d.
+Proof. destruct d; reflexivity. Qed.
+
+Definition rc_r_nosep (f : rfields) : Prop :=
+  rc_nosep (r_src_label f) /\ rc_nosep (r_src_id f) /\ rc_nosep (r_src_type f) /\
+  rc_nosep (r_dst_label f) /\ rc_nosep (r_dst_id f) /\ rc_nosep (r_dst_type f) /\
+  rc_nosep (r_liquid_class f).
+
+Definition rc_r_nonneg (f : rfields) : Prop :=
+  (0 <= r_src_start f)%Z /\ (0 <= r_src_end f)%Z /\ (0 <= r_dst_start f)%Z /\ (0 <= r_dst_end f)%Z /\
+  (0 <= r_diti_reuse f)%Z /\ (0 <= r_multi_disp f)%Z /\ Forall (fun x => (0 <= x)%Z) (r_exclude f).
+
+Definition rc_prd_of (f : rfields) : prd :=
+  {| pr_src_label := r_src_label f; pr_src_id := r_src_id f; pr_src_type := r_src_type f;
+     pr_src_start := Z.to_N (r_src_start f); pr_src_end := Z.to_N (r_src_end f);
+     pr_dst_label := r_dst_label f; pr_dst_id := r_dst_id f; pr_dst_type := r_dst_type f;
+     pr_dst_start := Z.to_N (r_dst_start f); pr_dst_end := Z.to_N (r_dst_end f);
+     pr_volume := render_pynum (r_volume f); pr_liquid_class := r_liquid_class f;
+     pr_diti_reuse := Z.to_N (r_diti_reuse f); pr_multi_disp := Z.to_N (r_multi_disp f);
+     pr_direction := r_direction f; pr_exclude := map Z.to_N (r_exclude f) |}.
+
+Definition rc_r_fields (f : rfields) : list string :=
+  [ r_src_label f; r_src_id f; r_src_type f; decZ (r_src_start f); decZ (r_src_end f);
+    r_dst_label f; r_dst_id f; r_dst_type f; decZ (r_dst_start f); decZ (r_dst_end f);
+    render_pynum (r_volume f); r_liquid_class f; decZ (r_diti_reuse f); decZ (r_multi_disp f);
+    if r_direction f then "1" else "0" ] ++ map decZ (r_exclude f).
+
+Lemma rc_render_r_eq f : render_r f = join ";" ("R" :: rc_r_fields f).
+Proof. reflexivity. Qed.
+
+Lemma rc_r_fields_no c f :
+  is_digit c = false -> c <> "."%char -> c <> "-"%char -> rc_r_nonneg f ->
+  contains_char c (r_src_label f) = false -> contains_char c (r_src_id f) = false ->
+  contains_char c (r_src_type f) = false -> contains_char c (r_dst_label f) = false ->
+  contains_char c (r_dst_id f) = false -> contains_char c (r_dst_type f) = false ->
+  contains_char c (r_liquid_class f) = false ->
+  Forall (fun y => contains_char c y = false) (rc_r_fields f).
+Proof.
+  intros Hd Hp Hm [P1 [P2 [P3 [P4 [P5 [P6 PX]]]]]] H1 H2 H3 H4 H5 H6 H7.
+  unfold rc_r_fields. apply Forall_app. split.
+  - repeat apply Forall_cons; try apply Forall_nil; try assumption;
+      try (apply rc_decZ_no; assumption).
+    + apply rc_pynum_no; assumption.
+    + destruct (r_direction f); apply rc_digits_no; try exact Hd; reflexivity.
+  - apply rc_decs_nosep; assumption.
+Qed.
+
+Lemma rc_split_r f : rc_r_nosep f -> rc_r_nonneg f ->
+  split_on ";"%char (render_r f) = "R" :: rc_r_fields f.
+Proof.
+  intros [H1 [H2 [H3 [H4 [H5 [H6 H7]]]]]] Hn. rewrite rc_render_r_eq.
+  apply rc_split_join; [reflexivity|].
+  apply rc_r_fields_no; try assumption; try reflexivity; discriminate.
+Qed.
+
+Lemma rc_parse_r_fields f : rc_r_nonneg f -> parse_r (rc_r_fields f) = Some (rc_prd_of f).
+Proof.
+  intros [P1 [P2 [P3 [P4 [P5 [P6 PX]]]]]]. unfold rc_r_fields. cbn [app]. unfold parse_r.
+  rewrite !rc_parse_decZ by assumption. rewrite rc_parse_dir. rewrite rc_parse_decs by exact PX.
+  reflexivity.
+Qed.
+
+Lemma rc_roundtrip_R_rec f : rc_r_nosep f -> rc_r_nonneg f ->
+  parse_record (render (RR f)) = Some (PR (rc_prd_of f)).
+Proof.
+  intros Hs Hn. cbn [render]. rewrite (rc_parse_R _ _ (rc_split_r f Hs Hn)).
+  rewrite rc_parse_r_fields by exact Hn. reflexivity.
+Qed.
+
+Lemma rc_roundtrip_R f :
+  contains_char ";"%char (r_src_label f) = false /\ contains_char ";"%char (r_src_id f) = false /\
+  contains_char ";"%char (r_src_type f) = false /\ contains_char ";"%char (r_dst_label f) = false /\
+  contains_char ";"%char (r_dst_id f) = false /\ contains_char ";"%char (r_dst_type f) = false /\
+  contains_char ";"%char (r_liquid_class f) = false ->
+  (0 <= r_src_start f)%Z /\ (0 <= r_src_end f)%Z /\ (0 <= r_dst_start f)%Z /\ (0 <= r_dst_end f)%Z /\
+  (0 <= r_diti_reuse f)%Z /\ (0 <= r_multi_disp f)%Z /\ Forall (fun x => (0 <= x)%Z) (r_exclude f) ->
+  exists p,
+    parse_record (render (RR f)) = Some (PR p) /\
+    pr_src_label p = r_src_label f /\ pr_src_id p = r_src_id f /\ pr_src_type p = r_src_type f /\
+    Z.of_N (pr_src_start p) = r_src_start f /\ Z.of_N (pr_src_end p) = r_src_end f /\
+    pr_dst_label p = r_dst_label f /\ pr_dst_id p = r_dst_id f /\ pr_dst_type p = r_dst_type f /\
+    Z.of_N (pr_dst_start p) = r_dst_start f /\ Z.of_N (pr_dst_end p) = r_dst_end f /\
+    pr_volume p = render_pynum (r_volume f) /\
+    (forall z, r_volume f = PyI z -> (0 <= z)%Z -> parse_decimal (pr_volume p) = Some (Z.to_N z, "")) /\
+    (forall q, r_volume f = PyF q ->
+       exists i fp, parse_decimal (pr_volume p) = Some (i, fp) /\ all_digits fp = true /\ fp <> "") /\
+    pr_liquid_class p = r_liquid_class f /\
+    Z.of_N (pr_diti_reuse p) = r_diti_reuse f /\ Z.of_N (pr_multi_disp p) = r_multi_disp f /\
+    pr_direction p = r_direction f /\
+    map Z.of_N (pr_exclude p) = r_exclude f /\
+    n_fields (render (RR f)) = (16 + List.length (r_exclude f))%nat.
+Proof.
+  intros Hs Hn. exists (rc_prd_of f).
+  split; [apply rc_roundtrip_R_rec; assumption|].
+  pose proof Hn as [P1 [P2 [P3 [P4 [P5 [P6 PX]]]]]].
+  unfold rc_prd_of. cbn [pr_src_label pr_src_id pr_src_type pr_src_start pr_src_end pr_dst_label pr_dst_id
+    pr_dst_type pr_dst_start pr_dst_end pr_volume pr_liquid_class pr_diti_reuse pr_multi_disp
+    pr_direction pr_exclude].
+  rewrite !Z2N.id by assumption. rewrite rc_of_to_N_list by exact PX.
+  repeat (split; [reflexivity|]).
+  split; [intros z Hz Hz0; rewrite Hz; apply rc_parse_decimal_int; exact Hz0|].
+  split; [intros q Hq; rewrite Hq; apply rc_parse_decimal_float|].
+  repeat (split; [reflexivity|]).
+  unfold n_fields. cbn [render]. rewrite (rc_split_r f Hs Hn).
+  unfold rc_r_fields. cbn [List.length app]. rewrite map_length. reflexivity.
+Qed.
+
+(** no line break unless a text field has one *)
+Lemma rc_oneline_R f c : rc_r_nonneg f ->
+  is_digit c = false -> c <> "."%char -> c <> "-"%char -> c <> ";"%char -> c <> "R"%char ->
+  contains_char c (r_src_label f) = false -> contains_char c (r_src_id f) = false ->
+  contains_char c (r_src_type f) = false -> contains_char c (r_dst_label f) = false ->
+  contains_char c (r_dst_id f) = false -> contains_char c (r_dst_type f) = false ->
+  contains_char c (r_liquid_class f) = false ->
+  contains_char c (render (RR f)) = false.
+Proof.
+  intros Hn Hd Hp Hm Hs HR H1 H2 H3 H4 H5 H6 H7. cbn [render]. rewrite rc_render_r_eq.
+  apply rc_contains_join.
+  - cbn [contains_char]. destruct (Ascii.eqb ";" c) eqn:E; [|reflexivity].
+    apply Ascii.eqb_eq in E. congruence.
+  - constructor; [|apply rc_r_fields_no; assumption].
+    cbn [contains_char]. destruct (Ascii.eqb "R" c) eqn:E; [|reflexivity].
+    apply Ascii.eqb_eq in E. congruence.
+Qed.
+
+(* ------------------------------------------------------------------------------------------ *)
+(** * sort_Z *)
+
+Lemma rc_insert_perm x l : Permutation (insert_Z x l) (x :: l).
+Proof.
+  induction l as [|y r IH]; [apply Permutation_refl|]. cbn [insert_Z].
+  destruct (y <=? x)%Z; [|apply Permutation_refl].
+  apply Permutation_trans with (y :: x :: r); [apply perm_skip; exact IH|apply perm_swap].
+Qed.
+
+Lemma rc_insert_sorted x l : StronglySorted Z.le l -> StronglySorted Z.le (insert_Z x l).
+Proof.
+  induction l as [|y r IH]; intro H.
+  - cbn [insert_Z]. constructor; [constructor|constructor].
+  - inversion H as [|y0 r0 Hr Hy]. subst y0 r0. cbn [insert_Z].
+    destruct (y <=? x)%Z eqn:E.
+    + apply Z.leb_le in E. constructor; [apply IH; exact Hr|].
+      rewrite Forall_forall. intros z Hz.
+      apply (Permutation_in _ (rc_insert_perm x r)) in Hz. destruct Hz as [Hz|Hz]; [subst z; exact E|].
+      rewrite Forall_forall in Hy. apply Hy. exact Hz.
+    + apply Z.leb_gt in E. constructor; [exact H|].
+      constructor; [lia|]. rewrite Forall_forall in Hy. rewrite Forall_forall.
+      intros z Hz. specialize (Hy z Hz). lia.
+Qed.
+
+Lemma rc_sort_fold l : forall acc, StronglySorted Z.le acc ->
+  StronglySorted Z.le (fold_left (fun acc x => insert_Z x acc) l acc) /\
+  Permutation (fold_left (fun acc x => insert_Z x acc) l acc) (acc ++ l).
+Proof.
+  induction l as [|x l IH]; intros acc Hacc; cbn [fold_left].
+  - split; [exact Hacc|]. rewrite app_nil_r. apply Permutation_refl.
+  - destruct (IH (insert_Z x acc) (rc_insert_sorted x acc Hacc)) as [H1 H2]. split; [exact H1|].
+    apply Permutation_trans with (insert_Z x acc ++ l)%list; [exact H2|].
+    apply Permutation_trans with ((x :: acc) ++ l)%list.
+    + apply Permutation_app_tail. apply rc_insert_perm.
+    + cbn [app]. apply Permutation_middle.
+Qed.
+
+(** [sorted(...)]: ascending, same elements with the same multiplicities *)
+Lemma rc_sort_Z l : StronglySorted Z.le (sort_Z l) /\ Permutation (sort_Z l) l.
+Proof. unfold sort_Z. apply (rc_sort_fold l [] (SSorted_nil _)). Qed.
+
+Lemma rc_sort_Z_Forall (P : Z -> Prop) l : Forall P l -> Forall P (sort_Z l).
+Proof.
+  intro H. rewrite Forall_forall in *. intros z Hz. apply H.
+  apply (Permutation_in _ (proj2 (rc_sort_Z l))). exact Hz.
+Qed.
+
+(* ------------------------------------------------------------------------------------------ *)
+(** * reagent_distribution *)
+
+Definition rc_excl (a : rdargs) : list Z := match rd_exclude a with Some l => l | None => [] end.
+
+Definition rc_rd_multi (w : wstate) (a : rdargs) (v : Q) : Z :=
+  if Qgtb (inject_Z (rd_multi_disp a) * v) (w_max w) then Qfloor (w_max w / v) else rd_multi_disp a.
+
+(** the record emitted by an accepted call, in terms of the validated components *)
+Definition rc_rd_record (w : wstate) (a : rdargs) (d : bool) (ss se ds de : Z) (sl sid sty dl did dty lc : string)
+    (v : Q) : rfields :=
+  {| r_src_label := sl; r_src_id := sid; r_src_type := sty; r_src_start := ss; r_src_end := se;
+     r_dst_label := dl; r_dst_id := did; r_dst_type := dty; r_dst_start := ds; r_dst_end := de;
+     r_volume := match rd_volume a with RVInt z => PyI z | _ => PyF v end;
+     r_liquid_class := lc; r_diti_reuse := rd_diti_reuse a; r_multi_disp := rc_rd_multi w a v;
+     r_direction := d; r_exclude := sort_Z (rc_excl a) |}.
+
+(** every call either leaves the worklist unchanged and raises, or all checks pass and one record is added *)
+Lemma rc_reagent_cases w a :
+  (exists e, reagent_distribution w a = (w, Some e)) \/
+  (exists (d : bool) ss se ds de sl sid sty dl did dty lc v,
+     rd_direction a = (if d then "right_to_left" else "left_to_right") /\
+     check_position (rd_src_start a) = Ok ss /\ check_position (rd_src_end a) = Ok se /\
+     check_position (rd_dst_start a) = Ok ds /\ check_position (rd_dst_end a) = Ok de /\
+     existsb (fun x => negb ((ds <=? x) && (x <=? de))%Z) (rc_excl a) = false /\
+     text_ok true (rd_src_label a) = Some sl /\ text_ok true (rd_src_id a) = Some sid /\
+     text_ok true (rd_src_type a) = Some sty /\ text_ok true (rd_dst_label a) = Some dl /\
+     text_ok true (rd_dst_id a) = Some did /\ text_ok true (rd_dst_type a) = Some dty /\
+     text_ok false (rd_liquid_class a) = Some lc /\
+     check_volume (rvol_pvol (rd_volume a)) (Some (w_max w)) = Ok v /\
+     reagent_distribution w a =
+       (emit w [RR (rc_rd_record w a d ss se ds de sl sid sty dl did dty lc v)], None)).
+Proof.
+  unfold reagent_distribution.
+  assert (Hd : (exists d : bool,
+              (if String.eqb (rd_direction a) "left_to_right" then Some false
+               else if String.eqb (rd_direction a) "right_to_left" then Some true else None) = Some d /\
+              rd_direction a = (if d then "right_to_left" else "left_to_right")) \/
+            (if String.eqb (rd_direction a) "left_to_right" then Some false
+             else if String.eqb (rd_direction a) "right_to_left" then Some true else None) = None).
+  { destruct (String.eqb (rd_direction a) "left_to_right") eqn:E1.
+    - apply String.eqb_eq in E1. left. exists false. split; [reflexivity|exact E1].
+    - destruct (String.eqb (rd_direction a) "right_to_left") eqn:E2.
+      + apply String.eqb_eq in E2. left. exists true. split; [reflexivity|exact E2].
+      + right. reflexivity. }
+  destruct Hd as [[d [Hd1 Hd2]]|Hd]; rewrite ?Hd1, ?Hd; [|left; eexists; reflexivity].
+  destruct (check_position (rd_src_start a)) as [ss|e1] eqn:P1; [|left; eexists; reflexivity].
+  destruct (check_position (rd_src_end a)) as [se|e2] eqn:P2; [|left; eexists; reflexivity].
+  destruct (check_position (rd_dst_start a)) as [ds|e3] eqn:P3; [|left; eexists; reflexivity].
+  destruct (check_position (rd_dst_end a)) as [de|e4] eqn:P4; [|left; eexists; reflexivity].
+  fold (rc_excl a).
+  destruct (existsb (fun x => negb ((ds <=? x) && (x <=? de))%Z) (rc_excl a)) eqn:X;
+    [left; eexists; reflexivity|].
+  destruct (text_ok true (rd_src_label a)) as [sl|] eqn:T1; [|left; eexists; reflexivity].
+  destruct (check_volume (rvol_pvol (rd_volume a)) (Some (w_max w))) as [v|ev] eqn:V;
+    [|left; eexists; reflexivity].
+  destruct (text_ok true (rd_src_id a)) as [sid|] eqn:T2; [|left; eexists; reflexivity].
+  destruct (text_ok true (rd_src_type a)) as [sty|] eqn:T3; [|left; eexists; reflexivity].
+  destruct (text_ok true (rd_dst_label a)) as [dl|] eqn:T4; [|left; eexists; reflexivity].
+  destruct (text_ok true (rd_dst_id a)) as [did|] eqn:T5; [|left; eexists; reflexivity].
+  destruct (text_ok true (rd_dst_type a)) as [dty|] eqn:T6; [|left; eexists; reflexivity].
+  destruct (text_ok false (rd_liquid_class a)) as [lc|] eqn:T7; [|left; eexists; reflexivity].
+  right. exists d, ss, se, ds, de, sl, sid, sty, dl, did, dty, lc, v.
+  repeat (split; [first [assumption|reflexivity]|]). reflexivity.
+Qed.
+
+(** a raising call appends nothing *)
+Lemma rc_reagent_err w a w' e : reagent_distribution w a = (w', Some e) -> w' = w.
+Proof.
+  intro H. destruct (rc_reagent_cases w a) as [[e' E]|[d [ss [se [ds [de [sl [sid [sty [dl [did [dty [lc [v E]]]]]]]]]]]]]].
+  - rewrite E in H. injection H as H _. symmetry. exact H.
+  - destruct E as [_ [_ [_ [_ [_ [_ [_ [_ [_ [_ [_ [_ [_ [_ E]]]]]]]]]]]]]]. rewrite E in H. discriminate H.
+Qed.
+
+Lemma rc_existsb_range ds de l :
+  existsb (fun x => negb ((ds <=? x) && (x <=? de))%Z) l = false <->
+  Forall (fun x => (ds <= x <= de)%Z) l.
+Proof.
+  induction l as [|x l IH]; cbn [existsb].
+  - split; [constructor|reflexivity].
+  - rewrite orb_false_iff, IH, negb_false_iff, andb_true_iff, !Z.leb_le. split.
+    + intros [H1 H2]. constructor; assumption.
+    + intro H. inversion H as [|x0 l0 H1 H2]. subst x0 l0. split; assumption.
+Qed.
+
+Local Open Scope Q_scope.
+
+(** the multi-dispense count: unchanged when it fits, otherwise the largest count that fits *)
+Lemma rc_rd_multi_spec w a v : 0 <= v -> v <= w_max w ->
+  (inject_Z (rd_multi_disp a) * v <= w_max w -> rc_rd_multi w a v = rd_multi_disp a) /\
+  (w_max w < inject_Z (rd_multi_disp a) * v ->
+     rc_rd_multi w a v = Qfloor (w_max w / v) /\ 0 < v /\
+     inject_Z (rc_rd_multi w a v) * v <= w_max w /\
+     w_max w < inject_Z (rc_rd_multi w a v + 1) * v /\
+     (1 <= rc_rd_multi w a v < rd_multi_disp a)%Z).
+Proof.
+  intros H0 Hmax. unfold rc_rd_multi. split.
+  - intro H. destruct (Qgtb (inject_Z (rd_multi_disp a) * v) (w_max w)) eqn:E; [|reflexivity].
+    apply rc_Qgtb_true in E. lra.
+  - intro H. apply rc_Qgtb_iff in H. rewrite H. apply rc_Qgtb_true in H.
+    assert (Hv : 0 < v).
+    { destruct (Qlt_le_dec 0 v) as [Hv|Hv]; [exact Hv|]. exfalso.
+      assert (Hz : v == 0) by lra. rewrite Hz in H. lra. }
+    assert (Hx : w_max w / v * v == w_max w) by (field; lra).
+    pose proof (Qfloor_le (w_max w / v)) as F1. pose proof (Qlt_floor (w_max w / v)) as F2.
+    assert (G1 : inject_Z (Qfloor (w_max w / v)) * v <= w_max w).
+    { rewrite <- Hx at 2. apply Qmult_le_compat_r; [exact F1|lra]. }
+    assert (G2 : w_max w < inject_Z (Qfloor (w_max w / v) + 1) * v).
+    { rewrite <- Hx at 1. apply Qmult_lt_compat_r; [exact Hv|exact F2]. }
+    split; [reflexivity|]. split; [exact Hv|]. split; [exact G1|]. split; [exact G2|].
+    split.
+    + assert (H1 : 1 <= w_max w / v) by (apply Qle_shift_div_l; lra).
+      change 1%Z with (Qfloor 1). apply Qfloor_resp_le. exact H1.
+    + assert (H2 : inject_Z (Qfloor (w_max w / v)) * v < inject_Z (rd_multi_disp a) * v) by lra.
+      assert (H3 : inject_Z (Qfloor (w_max w / v)) < inject_Z (rd_multi_disp a)).
+      { destruct (Qlt_le_dec (inject_Z (Qfloor (w_max w / v))) (inject_Z (rd_multi_disp a))) as [L|L];
+          [exact L|]. exfalso.
+        assert (inject_Z (rd_multi_disp a) * v <= inject_Z (Qfloor (w_max w / v)) * v)
+          by (apply Qmult_le_compat_r; lra). lra. }
+      rewrite <- Zlt_Qlt in H3. exact H3.
+Qed.
+
+Local Close Scope Q_scope.
+
+(** what an accepted call appends *)
+Lemma rc_reagent_ok w a w' : reagent_distribution w a = (w', None) ->
+  exists f, w' = emit w [RR f] /\ w_recs w' = (w_recs w ++ [RR f])%list /\
+    (* the arguments *)
+    rd_src_label a = PStr (r_src_label f) /\ rd_src_id a = PStr (r_src_id f) /\
+    rd_src_type a = PStr (r_src_type f) /\ rd_dst_label a = PStr (r_dst_label f) /\
+    rd_dst_id a = PStr (r_dst_id f) /\ rd_dst_type a = PStr (r_dst_type f) /\
+    rd_liquid_class a = PStr (r_liquid_class f) /\
+    rd_src_start a = PInt (r_src_start f) /\ rd_src_end a = PInt (r_src_end f) /\
+    rd_dst_start a = PInt (r_dst_start f) /\ rd_dst_end a = PInt (r_dst_end f) /\
+    match rd_volume a with
+    | RVInt z => r_volume f = PyI z
+    | RVFloat x => exists q, x = XQ q /\ r_volume f = PyF q
+    | RVBad => False
+    end /\
+    r_diti_reuse f = rd_diti_reuse a /\
+    rd_direction a = (if r_direction f then "right_to_left" else "left_to_right") /\
+    r_exclude f = sort_Z (rc_excl a) /\
+    (* the multi-dispense count *)
+    ((inject_Z (rd_multi_disp a) * pynum_q (r_volume f) <= w_max w)%Q -> r_multi_disp f = rd_multi_disp a) /\
+    ((w_max w < inject_Z (rd_multi_disp a) * pynum_q (r_volume f))%Q ->
+       r_multi_disp f = Qfloor (w_max w / pynum_q (r_volume f)) /\ (0 < pynum_q (r_volume f))%Q /\
+       (inject_Z (r_multi_disp f) * pynum_q (r_volume f) <= w_max w)%Q /\
+       (w_max w < inject_Z (r_multi_disp f + 1) * pynum_q (r_volume f))%Q /\
+       (1 <= r_multi_disp f < rd_multi_disp a)%Z) /\
+    (* the record is representable *)
+    rc_r_nosep f /\
+    ((String.length (r_src_label f) <= 32)%nat /\ (String.length (r_src_id f) <= 32)%nat /\
+     (String.length (r_src_type f) <= 32)%nat /\ (String.length (r_dst_label f) <= 32)%nat /\
+     (String.length (r_dst_id f) <= 32)%nat /\ (String.length (r_dst_type f) <= 32)%nat) /\
+    (0 <= r_src_start f)%Z /\ (0 <= r_src_end f)%Z /\ (0 <= r_dst_start f)%Z /\ (0 <= r_dst_end f)%Z /\
+    (0 <= pynum_q (r_volume f))%Q /\ (pynum_q (r_volume f) <= 7158278)%Q /\
+    (pynum_q (r_volume f) <= w_max w)%Q /\
+    Forall (fun x => (r_dst_start f <= x <= r_dst_end f)%Z) (r_exclude f) /\
+    Forall (fun x => (0 <= x)%Z) (r_exclude f).
+Proof.
+  intro H. destruct (rc_reagent_cases w a) as [[e' E]|[d [ss [se [ds [de [sl [sid [sty [dl [did [dty [lc [v E]]]]]]]]]]]]]].
+  { rewrite E in H. discriminate H. }
+  destruct E as [D [P1 [P2 [P3 [P4 [X [T1 [T2 [T3 [T4 [T5 [T6 [T7 [V E]]]]]]]]]]]]]].
+  rewrite E in H. injection H as H. subst w'.
+  exists (rc_rd_record w a d ss se ds de sl sid sty dl did dty lc v).
+  split; [reflexivity|]. split; [reflexivity|].
+  apply rc_text_ok_inv in T1, T2, T3, T4, T5, T6, T7.
+  destruct T1 as [A1 [B1 C1]]. destruct T2 as [A2 [B2 C2]]. destruct T3 as [A3 [B3 C3]].
+  destruct T4 as [A4 [B4 C4]]. destruct T5 as [A5 [B5 C5]]. destruct T6 as [A6 [B6 C6]].
+  destruct T7 as [A7 [B7 _]].
+  apply rc_check_position_inv in P1, P2, P3, P4.
+  destruct P1 as [Q1 R1]. destruct P2 as [Q2 R2]. destruct P3 as [Q3 R3]. destruct P4 as [Q4 R4].
+  apply rc_check_volume_inv in V. destruct V as [V1 [V2 [V3 V4]]]. unfold rc_max_ok in V4.
+  apply rc_existsb_range in X.
+  assert (Hq : (pynum_q (match rd_volume a with RVInt z => PyI z | _ => PyF v end) == v)%Q).
+  { destruct (rd_volume a) as [z|x|]; cbn [rvol_pvol] in V1; cbn [pynum_q]; try reflexivity.
+    injection V1 as V1. rewrite V1. reflexivity. }
+  unfold rc_rd_record.
+  cbn [r_src_label r_src_id r_src_type r_src_start r_src_end r_dst_label r_dst_id r_dst_type r_dst_start
+       r_dst_end r_volume r_liquid_class r_diti_reuse r_multi_disp r_direction r_exclude].
+  repeat (split; [assumption|]).
+  split.
+  { destruct (rd_volume a) as [z|x|]; cbn [rvol_pvol] in V1.
+    - reflexivity.
+    - injection V1 as V1. exists v. split; [exact V1|reflexivity].
+    - discriminate V1. }
+  split; [reflexivity|]. split; [exact D|]. split; [reflexivity|].
+  destruct (rc_rd_multi_spec w a v V2 V4) as [M1 M2].
+  split; [intro Hm; apply M1; rewrite <- Hq; exact Hm|].
+  split.
+  { intro Hm. rewrite Hq in Hm. destruct (M2 Hm) as [N1 [N2 [N3 [N4 N5]]]].
+    split; [rewrite N1; apply Qfloor_comp; rewrite Hq; reflexivity|].
+    split; [rewrite Hq; exact N2|]. split; [rewrite Hq; exact N3|]. split; [rewrite Hq; exact N4|exact N5]. }
+  split; [unfold rc_r_nosep, rc_nosep; cbn [r_src_label r_src_id r_src_type r_dst_label r_dst_id r_dst_type
+            r_liquid_class]; repeat split; assumption|].
+  split; [repeat split; auto|].
+  repeat (split; [assumption|]).
+  split; [rewrite Hq; exact V2|]. split; [rewrite Hq; exact V3|]. split; [rewrite Hq; exact V4|].
+  split.
+  - apply rc_sort_Z_Forall. exact X.
+  - apply rc_sort_Z_Forall. rewrite Forall_forall in *. intros x Hx. specialize (X x Hx). lia.
+Qed.
+
+(** an accepted record parses back, provided the two counts (which the method does not check) are not negative *)
+Lemma rc_reagent_roundtrip w a w' : reagent_distribution w a = (w', None) ->
+  (0 <= rd_diti_reuse a)%Z -> (0 <= rd_multi_disp a)%Z ->
+  exists f, w_recs w' = (w_recs w ++ [RR f])%list /\ rc_r_nosep f /\ rc_r_nonneg f /\
+            parse_record (render (RR f)) = Some (PR (rc_prd_of f)).
+Proof.
+  intros H Hr Hm. destruct (rc_reagent_ok w a w' H) as [f Hf]. exists f.
+  destruct Hf as [_ [Hrec [_ [_ [_ [_ [_ [_ [_ [_ [_ [_ [_ [_ [Hru [_ [_ [M1 [M2 [Hs [_ [P1 [P2 [P3 [P4 [V0 [_ [VM [_ HX]]]]]]]]]]]]]]]]]]]]]]]]]]]]].
+  assert (Hn : rc_r_nonneg f).
+  { unfold rc_r_nonneg. repeat (split; [assumption|]). split; [rewrite Hru; exact Hr|].
+    split; [|exact HX].
+    destruct (Qlt_le_dec (w_max w) (inject_Z (rd_multi_disp a) * pynum_q (r_volume f))) as [L|L].
+    - destruct (M2 L) as [_ [_ [_ [_ N]]]]. lia.
+    - rewrite (M1 L). exact Hm. }
+  split; [exact Hrec|]. split; [exact Hs|]. split; [exact Hn|].
+  apply rc_roundtrip_R_rec; assumption.
+Qed.
+
+(** ** Rejections *)
+
+Lemma rc_reagent_reject_if w a :
+  (forall w', reagent_distribution w a = (w', None) -> False) ->
+  exists e, reagent_distribution w a = (w, Some e).
+Proof.
+  intro H. destruct (rc_reagent_cases w a) as [E|[d [ss [se [ds [de [sl [sid [sty [dl [did [dty [lc [v E]]]]]]]]]]]]]];
+    [exact E|].
+  destruct E as [_ [_ [_ [_ [_ [_ [_ [_ [_ [_ [_ [_ [_ [_ E]]]]]]]]]]]]]]. exfalso. exact (H _ E).
+Qed.
+
+Lemma rc_reagent_reject_direction w a :
+  rd_direction a <> "left_to_right" -> rd_direction a <> "right_to_left" ->
+  reagent_distribution w a = (w, Some EReject).
+Proof.
+  intros H1 H2. unfold reagent_distribution.
+  apply String.eqb_neq in H1. apply String.eqb_neq in H2. rewrite H1, H2. reflexivity.
+Qed.
+
+Lemma rc_reagent_reject_position w a :
+  (exists p, (p = rd_src_start a \/ p = rd_src_end a \/ p = rd_dst_start a \/ p = rd_dst_end a) /\
+             match p with PInt z => (z < 0)%Z | PNotInt => True end) ->
+  exists e, reagent_distribution w a = (w, Some e).
+Proof.
+  intros [p [Hp Hbad]]. apply rc_reagent_reject_if. intros w' H.
+  destruct (rc_reagent_ok w a w' H) as [f Hf].
+  destruct Hf as [_ [_ [_ [_ [_ [_ [_ [_ [_ [Q1 [Q2 [Q3 [Q4 [_ [_ [_ [_ [_ [_ [_ [_ [P1 [P2 [P3 [P4 _]]]]]]]]]]]]]]]]]]]]]]]]].
+  destruct Hp as [Hp|[Hp|[Hp|Hp]]]; subst p;
+    [rewrite Q1 in Hbad|rewrite Q2 in Hbad|rewrite Q3 in Hbad|rewrite Q4 in Hbad]; lia.
+Qed.
+
+Lemma rc_reagent_reject_exclude w a x ds de :
+  In x (rc_excl a) -> rd_dst_start a = PInt ds -> rd_dst_end a = PInt de -> (x < ds \/ de < x)%Z ->
+  exists e, reagent_distribution w a = (w, Some e).
+Proof.
+  intros Hin Hds Hde Hx. apply rc_reagent_reject_if. intros w' H.
+  destruct (rc_reagent_ok w a w' H) as [f Hf].
+  destruct Hf as [_ [_ [_ [_ [_ [_ [_ [_ [_ [_ [_ [Q3 [Q4 [_ [_ [_ [HE [_ [_ [_ [_ [_ [_ [_ [_ [_ [_ [_ [HX _]]]]]]]]]]]]]]]]]]]]]]]]]]]]].
+  rewrite Hds in Q3. rewrite Hde in Q4. injection Q3 as Q3. injection Q4 as Q4.
+  rewrite Forall_forall in HX. specialize (HX x).
+  assert (Hin' : In x (r_exclude f)).
+  { rewrite HE. apply (Permutation_in _ (Permutation_sym (proj2 (rc_sort_Z (rc_excl a))))). exact Hin. }
+  specialize (HX Hin'). lia.
+Qed.
+
+Lemma rc_reagent_reject_text w a :
+  rc_text_bad true (rd_src_label a) \/ rc_text_bad true (rd_src_id a) \/ rc_text_bad true (rd_src_type a) \/
+  rc_text_bad true (rd_dst_label a) \/ rc_text_bad true (rd_dst_id a) \/ rc_text_bad true (rd_dst_type a) \/
+  rc_text_bad false (rd_liquid_class a) ->
+  exists e, reagent_distribution w a = (w, Some e).
+Proof.
+  intro Hbad. destruct (rc_reagent_cases w a) as [E|[d [ss [se [ds [de [sl [sid [sty [dl [did [dty [lc [v E]]]]]]]]]]]]]];
+    [exact E|].
+  destruct E as [_ [_ [_ [_ [_ [_ [T1 [T2 [T3 [T4 [T5 [T6 [T7 _]]]]]]]]]]]]]. exfalso.
+  rewrite <- !rc_text_ok_none in Hbad.
+  destruct Hbad as [H|[H|[H|[H|[H|[H|H]]]]]]; congruence.
+Qed.
+
+Lemma rc_reagent_reject_volume w a :
+  rc_vol_bad (rvol_pvol (rd_volume a)) \/
+  (exists q, rvol_pvol (rd_volume a) = PV (XQ q) /\ (w_max w < q)%Q) ->
+  exists e, reagent_distribution w a = (w, Some e).
+Proof.
+  intro Hbad. destruct (rc_reagent_cases w a) as [E|[d [ss [se [ds [de [sl [sid [sty [dl [did [dty [lc [v E]]]]]]]]]]]]]];
+    [exact E|].
+  destruct E as [_ [_ [_ [_ [_ [_ [_ [_ [_ [_ [_ [_ [_ [V _]]]]]]]]]]]]]]. exfalso.
+  destruct Hbad as [H|[q [Hq Hm]]].
+  - rewrite (rc_check_volume_bad _ (Some (w_max w)) H) in V. discriminate V.
+  - apply rc_check_volume_inv in V. destruct V as [V1 [_ [_ V4]]]. unfold rc_max_ok in V4.
+    rewrite Hq in V1. injection V1 as V1. rewrite V1 in Hm. lra.
+Qed.
+
+(* ------------------------------------------------------------------------------------------ *)
+(** * End to end: method call -> record text -> independent parser -> the arguments *)
+
+Lemma rc_decimal n :
+  parse_decN (decN n) = Some n /\ all_digits (decN n) = true /\ decN n <> "" /\
+  contains_char ";"%char (decN n) = false /\ contains_char "."%char (decN n) = false /\
+  parse_cents (fixed_dec n 2) = Some n.
+Proof.
+  split; [apply parse_decN_decN|]. split; [apply all_digits_decN|]. split; [apply decN_nonempty|].
+  split; [apply rc_decN_no; reflexivity|]. split; [apply rc_decN_no; reflexivity|].
+  apply rc_parse_cents_fixed.
+Qed.
+
+(** the shape of "ddd.dd" *)
+Lemma rc_fixed_dec2_shape n : exists a b,
+  fixed_dec n 2 = decN (n / 100) ++ "." ++ String a (String b "") /\
+  parse_decN (String a (String b "")) = Some (n mod 100)%N.
+Proof.
+  assert (Hm : (n mod 100 < 100)%N) by (apply N.mod_lt; discriminate).
+  destruct (rc_frac2 _ Hm) as [a [b [E P]]]. exists a, b. split; [|exact P].
+  unfold fixed_dec, frac_digits. change (10 ^ N.of_nat 2)%N with 100%N. rewrite E. reflexivity.
+Qed.
+
+Lemma rc_ad_end_to_end a max f : prepare_ad a max = Ok f ->
+  exists p v,
+    parse_record (render (RA f)) = Some (PA p) /\ parse_record (render (RD f)) = Some (PD p) /\
+    x_rack_label a = PStr (pa_rack_label p) /\ x_rack_id a = PStr (pa_rack_id p) /\
+    x_rack_type a = PStr (pa_rack_type p) /\ x_position a = PInt (Z.of_N (pa_position p)) /\
+    x_tube_id a = PStr (pa_tube_id p) /\
+    x_volume a = PV (XQ v) /\ Z.of_N (pa_volume_c p) = round2c v /\
+    x_liquid_class a = PStr (pa_liquid_class p) /\ tip_mask (x_tip a) = Ok (pa_tip p) /\
+    x_forced a = PStr (pa_forced_rack_type p).
+Proof.
+  intro H. destruct (rc_prepare_roundtrip a max f H) as [RA_ RD_].
+  apply rc_prepare_ok in H.
+  destruct H as [[A1 [A2 [A3 [A4 [A5 [A6 [A7 [A8 A9]]]]]]]] [_ [_ [P [V0 _]]]]].
+  exists (rc_pad_of f), (ad_volume f).
+  split; [exact RA_|]. split; [exact RD_|].
+  unfold rc_pad_of. cbn [pa_rack_label pa_rack_id pa_rack_type pa_position pa_tube_id pa_volume_c
+    pa_liquid_class pa_tip pa_forced_rack_type].
+  rewrite !Z2N.id by (first [exact P|apply rc_round2c_nonneg; exact V0]).
+  repeat split; assumption.
+Qed.
+
+Lemma rc_aspirate_end_to_end w a w' : aspirate_well w a = (w', None) ->
+  exists f p v,
+    w_recs w' = (w_recs w ++ [RA f])%list /\ parse_record (render (RA f)) = Some (PA p) /\
+    x_rack_label a = PStr (pa_rack_label p) /\ x_rack_id a = PStr (pa_rack_id p) /\
+    x_rack_type a = PStr (pa_rack_type p) /\ x_position a = PInt (Z.of_N (pa_position p)) /\
+    x_tube_id a = PStr (pa_tube_id p) /\
+    x_volume a = PV (XQ v) /\ Z.of_N (pa_volume_c p) = round2c v /\
+    x_liquid_class a = PStr (pa_liquid_class p) /\ tip_mask (x_tip a) = Ok (pa_tip p) /\
+    x_forced a = PStr (pa_forced_rack_type p).
+Proof.
+  intro H. apply rc_aspirate_well in H. destruct H as [f [Hf [_ Hr]]].
+  destruct (rc_ad_end_to_end _ _ _ Hf) as [p [v [H1 [_ H3]]]].
+  exists f, p, v. split; [exact Hr|]. split; [exact H1|exact H3].
+Qed.
+
+Lemma rc_dispense_end_to_end w a w' : dispense_well w a = (w', None) ->
+  exists f p v,
+    w_recs w' = (w_recs w ++ [RD f])%list /\ parse_record (render (RD f)) = Some (PD p) /\
+    x_rack_label a = PStr (pa_rack_label p) /\ x_rack_id a = PStr (pa_rack_id p) /\
+    x_rack_type a = PStr (pa_rack_type p) /\ x_position a = PInt (Z.of_N (pa_position p)) /\
+    x_tube_id a = PStr (pa_tube_id p) /\
+    x_volume a = PV (XQ v) /\ Z.of_N (pa_volume_c p) = round2c v /\
+    x_liquid_class a = PStr (pa_liquid_class p) /\ tip_mask (x_tip a) = Ok (pa_tip p) /\
+    x_forced a = PStr (pa_forced_rack_type p).
+Proof.
+  intro H. apply rc_dispense_well in H. destruct H as [f [Hf [_ Hr]]].
+  destruct (rc_ad_end_to_end _ _ _ Hf) as [p [v [_ [H2 H3]]]].
+  exists f, p, v. split; [exact Hr|]. split; [exact H2|exact H3].
+Qed.
+
+Lemma rc_ad_worklist w a w' :
+  (forall e, aspirate_well w a = (w', Some e) -> w' = w /\ prepare_ad a (Some (w_max w)) = Err e) /\
+  (aspirate_well w a = (w', None) ->
+     exists f, prepare_ad a (Some (w_max w)) = Ok f /\ w_recs w' = (w_recs w ++ [RA f])%list) /\
+  (forall e, dispense_well w a = (w', Some e) -> w' = w /\ prepare_ad a (Some (w_max w)) = Err e) /\
+  (dispense_well w a = (w', None) ->
+     exists f, prepare_ad a (Some (w_max w)) = Ok f /\ w_recs w' = (w_recs w ++ [RD f])%list).
+Proof.
+  split; [intros e H; exact (rc_aspirate_well _ _ _ _ H)|].
+  split; [intro H; destruct (rc_aspirate_well _ _ _ _ H) as [f [H1 [_ H2]]]; exists f; split; assumption|].
+  split; [intros e H; exact (rc_dispense_well _ _ _ _ H)|].
+  intro H. destruct (rc_dispense_well _ _ _ _ H) as [f [H1 [_ H2]]]. exists f. split; assumption.
+Qed.
+
+Lemma rc_reagent_end_to_end w a w' : reagent_distribution w a = (w', None) ->
+  (0 <= rd_diti_reuse a)%Z -> (0 <= rd_multi_disp a)%Z ->
+  exists f p,
+    w_recs w' = (w_recs w ++ [RR f])%list /\ parse_record (render (RR f)) = Some (PR p) /\
+    rd_src_label a = PStr (pr_src_label p) /\ rd_src_id a = PStr (pr_src_id p) /\
+    rd_src_type a = PStr (pr_src_type p) /\
+    rd_src_start a = PInt (Z.of_N (pr_src_start p)) /\ rd_src_end a = PInt (Z.of_N (pr_src_end p)) /\
+    rd_dst_label a = PStr (pr_dst_label p) /\ rd_dst_id a = PStr (pr_dst_id p) /\
+    rd_dst_type a = PStr (pr_dst_type p) /\
+    rd_dst_start a = PInt (Z.of_N (pr_dst_start p)) /\ rd_dst_end a = PInt (Z.of_N (pr_dst_end p)) /\
+    pr_volume p = render_pynum (r_volume f) /\
+    rd_liquid_class a = PStr (pr_liquid_class p) /\
+    Z.of_N (pr_diti_reuse p) = rd_diti_reuse a /\
+    Z.of_N (pr_multi_disp p) = r_multi_disp f /\
+    rd_direction a = (if pr_direction p then "right_to_left" else "left_to_right") /\
+    map Z.of_N (pr_exclude p) = sort_Z (rc_excl a).
+Proof.
+  intros H Hr Hm. destruct (rc_reagent_roundtrip w a w' H Hr Hm) as [f [Hrec [Hs [Hn Hp]]]].
+  destruct (rc_reagent_ok w a w' H) as [f' Hf].
+  destruct Hf as [_ [Hrec' Hf]].
+  assert (Ef : f' = f).
+  { rewrite Hrec in Hrec'. apply app_inv_head in Hrec'. injection Hrec' as E. symmetry. exact E. }
+  subst f'.
+  destruct Hf as [A1 [A2 [A3 [A4 [A5 [A6 [A7 [Q1 [Q2 [Q3 [Q4 [_ [Hru [Hd [He _]]]]]]]]]]]]]]].
+  destruct Hn as [P1 [P2 [P3 [P4 [P5 [P6 PX]]]]]].
+  exists f, (rc_prd_of f). split; [exact Hrec|]. split; [exact Hp|].
+  unfold rc_prd_of. cbn [pr_src_label pr_src_id pr_src_type pr_src_start pr_src_end pr_dst_label pr_dst_id
+    pr_dst_type pr_dst_start pr_dst_end pr_volume pr_liquid_class pr_diti_reuse pr_multi_disp
+    pr_direction pr_exclude].
+  rewrite !Z2N.id by assumption. rewrite rc_of_to_N_list by exact PX.
+  repeat (split; [first [assumption|reflexivity]|]). exact He.
+Qed.
